@@ -605,6 +605,21 @@ def semD (dec : Kind → Env → Decision) (v : RVec) : Sem := semOf v.kind (ren
 
 def sem (v : Vec) : Sem := semD tableDecision v.reduce
 
+/-! ## One spelling option that is not only spelling
+
+`--use-generic-container-types` writes an array member as `Sequence[…]` (the two sibling spelling
+options `--use-union-operator` and `--use-standard-collections` change nothing the model speaks
+about). pydantic 1 refuses to create a class in which a `Sequence[…]` field carries `max_items`
+("field constraints are set but not enforced"), so with that option a constrained array member of
+pydantic-1 output has no class at all. The option is kept out of `Vec` (every other statement is
+independent of it); `semG` is the semantics with it. -/
+
+def v1SequenceConstraint (v : Vec) (ug : Bool) : Bool :=
+  ug && v.kind == .v1 && v.ty == .array && (fromSchema v).constraints == .keyword
+
+def semG (v : Vec) (ug : Bool) : Sem :=
+  if v1SequenceConstraint v ug then { sem v with loads := false } else sem v
+
 /-! ## Enumeration of the finite space (for `decide`) -/
 
 def Kind.all : List Kind := [.v1, .v2, .dc, .td, .ms]
